@@ -17,7 +17,7 @@ import torch
 import z3
 
 from harness.c01 import Harness, build_toy, build_model_graph, TOY, N_IND, _fmt
-from harness.c03 import pop_task as _pop_task, ind_task as _ind_task
+from harness.c03 import pop_task as _pop_task, ind_task as _ind_task, ind_mixture_task as _ind_mixture_task
 from harness.realmodel import *  # noqa
 from leaspy.exceptions import LeaspyException, LeaspyInputError
 from leaspy.utils.functional import NamedInputFunction
@@ -345,6 +345,10 @@ def sampler_ind(n_ind, shape):
     return _ind_task(n_ind, shape, prop=PROP)
 
 
+def sampler_ind_mixture(n_ind, shape, n_clusters=2):
+    return _ind_mixture_task(n_ind, shape, n_clusters=n_clusters, prop=PROP)
+
+
 def tasks(tier, seed=0):
     ts = []
     graphs = ["diamond_late_root", "two_roots_grandchild", "hyper_fed"] if tier == "quick" else list(TOY)
@@ -368,4 +372,5 @@ def tasks(tier, seed=0):
     ts.append(("sampler_pop", dict(kind="gibbs", shape=(2,))))
     ts.append(("sampler_pop", dict(kind="metropolis-hastings", shape=(2, 2))))
     ts.append(("sampler_ind", dict(n_ind=2, shape=(2,))))
+    ts.append(("sampler_ind_mixture", dict(n_ind=2, shape=(1,))))  # mixture branch: rejected rows keep the previous value, accepted ones the proposal
     return ts
